@@ -46,7 +46,7 @@ def encCell (c : Cell) : String := s!"{encStr c.char} {encStr c.style} {c.width}
 
 def encSegs (l : List Seg) : String :=
   let tag : Origin → String
-    | .gen => "g" | .content => "c" | .zwe => "z"
+    | .gen => "r" | .content => "w" | .zwe => "r"
   encList (fun (o, t) => tag o ++ " " ++ encStr t) l
 
 def handle (e : Env) : String → P (Env × String)
